@@ -74,6 +74,9 @@ TRUSTED = [
     "Coq 8.16.1 kernel (coqc, full .vo build; vm_compute used, native_compute not used)",
     "no axioms: Print Assumptions of every pinned theorem must be 'Closed under the global context'",
     "extraction: ExtrOcamlBasic only (Extract Inductive bool, option, unit, list, prod, sumbool, sumor); no Extract Constant; OCaml 4.13.1",
+    "translator /verif/kx (syn 2): symbolic execution of the protocol functions into canonical event automata and role tables (aut.rs), "
+    "lock-discipline automata of the entry points, size dispatch by partial evaluation per size class (ptrx.rs), struct fields and unsafe impls: "
+    "trusted to follow the source; cross-checked by H2 (run-time orderings, source lines, lock counts) and by rustc's verdicts",
     "OCaml driver coq/extract/driver.ml (parsing, printing, history generation) and python driver lib/*.py: glue, unverified",
     "correspondence harness /verif/harness (H1 interpreter, payload drop ledger, harness wakers) and the cfg(kanal_verif) shim in /repo/src/verif",
     "modelled, not verified: VecDeque, Arc, lock_api::Mutex, thread::park/unpark, Waker contract, Instant, rustc",
